@@ -1,0 +1,18 @@
+//go:build verif
+// +build verif
+
+package input
+
+// Verification builds only (XLISTEN, the lifecycle of the network inputs).  Add-only; nothing
+// here is referenced by production code and there is no call site in existing code.
+
+// VerifXlistenFaultTCP makes the pending (or next) AcceptTCP of the accept loop return an error
+// while the listener is not shutting down, by closing the listening socket underneath it: from
+// the accept loop's point of view this is the same as any other accept error (it logs, closes the
+// listener and returns to run(), which reopens with backoff).  Must only be called while the
+// accept loop is blocked in AcceptTCP (after Start returned / after a connection was served by
+// the reopened listener).
+func (l *Listener) VerifXlistenFaultTCP() error { return l.tcpList.Close() }
+
+// VerifXlistenFaultUDP does the same for the UDP reader (ReadFrom returns an error).
+func (l *Listener) VerifXlistenFaultUDP() error { return l.udpConn.Close() }
